@@ -1089,8 +1089,9 @@ fn gen_nav_case(rng: &mut Rng) -> NavCase {
                 pool[rng.below(pool.len())].clone()
             };
             let style = if below_only { [0u8, 0, 2][rng.below(3)] } else { [0u8, 0, 1, 1, 2][rng.below(5)] };
-            // the ignorer of the command line reads the name as written: with an ignore file, explicit files are written plainly
-            let detours = if !below_only { 2 } else if lines.is_some() && !is_dir { 0 } else { 1 };
+            // the ignorer of the command line resolves the name it is given (fix ed40389; before it read the name as written,
+            // and with an ignore file explicit files had to be written plainly): every spelling is generated
+            let detours = 2;
             args.push(write_target(rng, &tree, &cwd, &loc, is_dir, style, detours));
             targets.push((loc, is_dir));
         }
